@@ -38,6 +38,7 @@ ANCHORS = ["DocutilsRenderer._render_tokens", "DocutilsRenderer.render_children"
            "SphinxRenderer.render_link_unknown", "DocutilsRenderer.render_image", "DocutilsRenderer.render_ordered_list", "mdit.create_md_parser"]
 
 STATIC_EXT = ["amsmath", "attrs_block", "attrs_inline", "colon_fence", "deflist", "dollarmath", "fieldlist", "replacements", "smartquotes", "strikethrough", "tasklist"]
+HTML_EXT = STATIC_EXT + ["html_image", "html_admonition"]
 SPEC = []
 APP = None
 TMP = None
@@ -137,12 +138,31 @@ def eval_case(ctx, case):
     except Exception as e:  # noqa: BLE001
         ctx.count("token_side_failed:" + type(e).__name__)
         return False
+    if "html_image" in exts or "html_admonition" in exts:
+        # with the HTML extensions on, HTML made ONLY of convertible elements becomes images / admonitions (C17 judges that conversion);
+        # every other piece of HTML - also one that mixes such an element with text, comments or entities - is still a leaf of this property
+        from .c17 import convertible
+
+        def _html(tokens):
+            for t in tokens:
+                if t.type in ("html_block", "html_inline"):
+                    yield t.content
+                if t.children:
+                    yield from _html(t.children)
+
+        hs = list(_html(md.parse(text)))
+        if any(convertible(h, True, True) for h in hs):
+            ctx.count("html_extensions:document_with_convertible_html_not_judged")
+            return False
+        ctx.count("html_extensions:documents_judged")
+        ctx.count("html_extensions:html_leaves", len(hs))
     if tc.unknown:
         ctx.count("unknown_token_types")
         for u in set(tc.unknown):
             ctx.count("unknown_token:" + u)
         return False
     forms = {}
+    tc_kinds = set()
     for backend in case["backends"]:
         if backend == "sphinx" and APP is None:
             continue
@@ -160,6 +180,10 @@ def eval_case(ctx, case):
         else:
             tform_cmp = tform
         forms[backend] = dform
+        if dc.unknown and ("html_image" in exts or "html_admonition" in exts) and not any(u in tc_kinds for u in dc.unknown):
+            # no convertible HTML in this document (checked above), yet the doctree holds a block the token tree has no counterpart for
+            ctx.violation("html-leaf:replaced-by-other-node", f"[{mode}/{backend}] with the HTML extensions on, the doctree holds {sorted(set(dc.unknown))} where the token tree has only non-convertible HTML: " + " / ".join(l.strip() for l in doc.pformat()[:300].splitlines()), case, {"token_form": tform, "doctree": doc.pformat()[:1500]})
+            continue
         if dc.unknown:
             ctx.count("unknown_doctree_nodes")
             for u in set(dc.unknown):
@@ -261,6 +285,9 @@ def matrices():
         "(t)=\npara one\n\n(t)=\npara two\n\n(t)=\n```\ncode\n```\n",
         "term\n: def `c`\n\nterm\n: def `c`\n",
         "<b>x</b> <b>x</b>\n\n<div>d</div>\n\n<div>d</div>\n",
+        # HTML that contains a convertible element next to something else: one raw leaf whatever extensions are on
+        "<img src=\"a.png\">\nFigure 1: caption\n", "<img src=\"a.png\">\n<!-- note -->\n", "text <img src=\"a.png\"> tail &amp; <b>x</b>\n", "<div class=\"admonition\">x</div> tail text\n", "&amp; <img src=\"a.png\">\n",
+        "<!-- c --><img src=\"a.png\">\n", "<img src=\"a.png\"><b>b</b>\n", "<?pi x?>\n<img src=\"a.png\">\n", "<div class=\"admonition\">\n<p>x</p>\n</div>\ntrailing words\n", "> <img src=\"a.png\"> quoted text\n",
     ]
     return out
 
@@ -274,7 +301,7 @@ def run_shard(ctx):
     for i, text in enumerate(mats):
         if i % ctx.nshards != ctx.shard:
             continue
-        for mode, exts in [("commonmark", []), ("gfm", []), ("myst", []), ("myst", STATIC_EXT)]:
+        for mode, exts in [("commonmark", []), ("gfm", []), ("myst", []), ("myst", STATIC_EXT), ("myst", HTML_EXT)]:
             case = {"kind": "matrix", "text": text, "mode": mode, "exts": exts, "backends": ["docutils", "sphinx"]}
             eval_case(ctx, case)
             ctx.case((text, mode, tuple(exts)), True)
@@ -282,7 +309,7 @@ def run_shard(ctx):
     ctx.subrun("attribute_matrices", exhaustive=True, documents=len(mats) if ctx.shard == 0 else 0, cases=nm)
     # 1. every spec example x modes (partitioned over shards)
     n = 0
-    modes = [("commonmark", []), ("gfm", []), ("myst", []), ("myst", STATIC_EXT)]
+    modes = [("commonmark", []), ("gfm", []), ("myst", []), ("myst", STATIC_EXT), ("myst", HTML_EXT)]
     for i, mdtext in enumerate(SPEC):
         if i % ctx.nshards != ctx.shard:
             continue
@@ -298,7 +325,7 @@ def run_shard(ctx):
     for i in range(n2):
         mode, exts = R.choice(modes)
         if mode == "myst" and R.random() < 0.5:
-            exts = sorted(e for e in STATIC_EXT if R.random() < 0.5)
+            exts = sorted(e for e in HTML_EXT if R.random() < 0.5)
         if i % 2 == 0:
             text = compose(R, R.choice(SPEC), R.choice(["quote", "list", "quote-list", "list-list", "olist", "cell"]))
             kind = "composed"
